@@ -217,7 +217,19 @@ def feature_consistency_ob(fname, und, tag):
             b = f.get(None)
             a2 = f.get(SInt(I))
             b2 = f.get(None)
-            return a, b, a2, b2
+            # ... and after the instrument has been re-simulated (new buffers of the same shape): nothing of the earlier
+            # evaluations may survive in the bound feature
+            import torch
+            from pfv.torchlib.tensor import Tensor
+            for bn in list(d.ul()._buffers):
+                old_b = d.ul()._buffers[bn]
+                if old_b is None:
+                    continue
+                d.ul().register_buffer(bn, Tensor.input(bn + 'B', old_b._shape, old_b.dtype))
+                assume_positive_spot(c, bn + 'B')
+            a3 = f.get(SInt(I))
+            b3 = f.get(None)
+            return a, b, a2, b2, a3, b3
         paths = explore(run, hyps, max_paths=16)
         n = tm.var('n', 'I')
         rng = [tm.le(tm.IZERO, n), tm.lt(n, N)]
@@ -226,9 +238,11 @@ def feature_consistency_ob(fname, und, tag):
         for p in paths:
             if p.outcome() != 'returns':
                 return Verdict('unknown', 'engine', time.time() - t0, 'path %s: %s %s' % (p.outcome(), p.exception, p.traceback[-500:]), sample=sample)
-            a, b, a2, b2 = p.result
-            rhs = b.at((n, I, tm.IZERO))
-            for (what, lhs) in (('get(i)', a.at((n, tm.IZERO, tm.IZERO))), ('get(i) evaluated after get(None)', a2.at((n, tm.IZERO, tm.IZERO))), ('get(None)[:, i] evaluated a second time', b2.at((n, I, tm.IZERO)))):
+            a, b, a2, b2, a3, b3 = p.result
+            rhs0 = b.at((n, I, tm.IZERO))
+            for (what, lhs, rhs) in (('get(i)', a.at((n, tm.IZERO, tm.IZERO)), rhs0), ('get(i) evaluated after get(None)', a2.at((n, tm.IZERO, tm.IZERO)), rhs0),
+                                     ('get(None)[:, i] evaluated a second time', b2.at((n, I, tm.IZERO)), rhs0),
+                                     ('get(i) after the instrument was re-simulated', a3.at((n, tm.IZERO, tm.IZERO)), b3.at((n, I, tm.IZERO)))):
                 nvc += 1
                 r = fc.prove_eq(p.facts(hyps) + rng, lhs, rhs, timeout_ms=20000)
                 sample.update(step=tm.show(lhs)[:200], batch=tm.show(rhs)[:200], status=r.status)
@@ -272,6 +286,10 @@ for i in range(Tn - 1):
     for k, b in d.ul().named_buffers(): b.copy_(saved[k])
 for k, b in d.ul().named_buffers():
     if not torch.equal(b, bufs[k]): bad.append(("buffer-mutated", k))
+# re-simulate: the bound feature must follow the new buffers in both forms
+d.simulate(n_paths=3); d.to(torch.float64)
+for i in range(Tn):
+    if name != "empty" and not torch.allclose(f.get(i)[:, 0, 0], f.get(None)[:, i, 0], equal_nan=True): bad.append(("step!=batch after re-simulation", i))
 result = {"got": [str(x) for x in bad], "ref": []}
 '''
 
@@ -655,9 +673,10 @@ def _loop_spec(H, on_preserve=None, extra_inv=None, extra_lemmas=None):
     return cutloops.LoopSpec(inv, name='for time_step', havoc={'outputs': havoc_outputs}, heap_havoc=heap_havoc, lemmas=lemmas)
 
 
-def hedge_loop_ob(model_kind, H, aspects=('reads', 'last', 'shape', 'prev'), props=('C02', 'C13'), und='brownian', dkind='european'):
+def hedge_loop_ob(model_kind, H, aspects=('reads', 'last', 'shape', 'prev'), props=('C02', 'C13'), und='brownian', dkind='european', prev_first=False):
     """compute_hedge, state-dependent branch, for EVERY number of steps: the real loop cut by the invariant of `_loop_spec`."""
-    tag = '%s,H=%d,stepwise,all T (loop invariant),%s%s' % (model_kind, H, dkind, (',' + und) if und != 'brownian' else '')
+    tag = '%s,H=%d,stepwise,all T (loop invariant),%s%s%s' % (model_kind, H, dkind, (',' + und) if und != 'brownian' else '', ',prev_hedge declared first' if prev_first else '')
+    STATIC = ['log_moneyness', 'time_to_maturity', 'volatility']
 
     def check():
         t0 = time.time()
@@ -668,7 +687,13 @@ def hedge_loop_ob(model_kind, H, aspects=('reads', 'last', 'shape', 'prev'), pro
         holder = {}
 
         def on_preserve(state):
-            ctx().notes.append(('iter', state['outputs'], lift(state['time_step']), list(rec), state['self'].get_buffer('prev_output')))
+            # what the declared static features are at the step just executed (their own contracts are the HS/feature obligations)
+            from pfhedge.features import get_feature
+            exp_cols = []
+            if model_kind == 'user':
+                i_prev = state['time_step'] - 1
+                exp_cols = [get_feature(nm_).of(state['derivative']).get(i_prev) for nm_ in STATIC]
+            ctx().notes.append(('iter', state['outputs'], lift(state['time_step']), list(rec), state['self'].get_buffer('prev_output'), exp_cols))
         rec = []
         cut, info = cutloops.cut(Hedger.compute_hedge, {0: _loop_spec(H, on_preserve)})
 
@@ -680,7 +705,7 @@ def hedge_loop_ob(model_kind, H, aspects=('reads', 'last', 'shape', 'prev'), pro
                 assume_nonneg(c, 'variance')
             if H >= 2:
                 assume_positive_spot(c, 'spot2')
-            feats = ['log_moneyness', 'time_to_maturity', 'volatility', 'prev_hedge'] if model_kind == 'user' else None
+            feats = ((['prev_hedge'] + STATIC) if prev_first else (STATIC + ['prev_hedge'])) if model_kind == 'user' else None
             if model_kind == 'user':
                 import pfhedge.nn as pnn
                 hedger = pnn.Hedger(UserModel.make(H, record=rec), feats)
@@ -745,7 +770,7 @@ def hedge_loop_ob(model_kind, H, aspects=('reads', 'last', 'shape', 'prev'), pro
                 notes = [x for x in p.ctx.notes if isinstance(x, tuple) and x and x[0] == 'iter']
                 if not notes:
                     return Verdict('unknown', 'engine', time.time() - t0, 'iteration state not captured', sample=sample)
-                _, outs, i_after, inputs, P_after = notes[-1]
+                _, outs, i_after, inputs, P_after, exp_cols = notes[-1]
                 i_new = tm.sub(i_after, tm.IONE)
                 new = list(list.__iter__(outs))[-1]
                 if len(list(list.__iter__(outs))) != 2 or len(new._shape) != 3:
@@ -770,11 +795,17 @@ def hedge_loop_ob(model_kind, H, aspects=('reads', 'last', 'shape', 'prev'), pro
                         rows.append(('[prev] model input is (N, 1, F + H)', 'proved' if ok_shape else 'refuted', str(inp._shape)))
                         if ok_shape:
                             P_prev = tm.ite(tm.eq(i_new, tm.IZERO), tm.ZERO, tm.sel('hvS', n, tm.sub(i_new, tm.IONE), h))
+                            off_prev, off_static = (0, H) if prev_first else (F, 0)
                             for hh in range(H):
-                                seen = inp.at((n, tm.IZERO, tm.const(F + hh, 'I')))
+                                seen = inp.at((n, tm.IZERO, tm.const(off_prev + hh, 'I')))
                                 want = tm.subst(P_prev, {h: tm.const(hh, 'I')})
                                 r = fc.prove_eq(facts + rng, seen, want, timeout_ms=20000)
-                                rows.append(('[prev] prev_hedge[%d] seen by the model at step i == output of step i-1 (zero at step 0)' % hh, st(r), tm.show(seen)[:200] if r.status != 'unsat' else ''))
+                                rows.append(('[prev] prev_hedge[%d] (declared position %d) seen by the model at step i == output of step i-1 (zero at step 0)' % (hh, off_prev + hh), st(r), tm.show(seen)[:200] if r.status != 'unsat' else ''))
+                            # the other columns are the declared features, in the declared order
+                            for k_, (nm_, col) in enumerate(zip(STATIC, exp_cols)):
+                                seen = inp.at((n, tm.IZERO, tm.const(off_static + k_, 'I')))
+                                r = fc.prove_eq(facts + rng, seen, col.at((n, tm.IZERO, tm.IZERO)), timeout_ms=20000)
+                                rows.append(('[prev] model input column %d == feature %s at step i (declared order)' % (off_static + k_, nm_), st(r), tm.show(seen)[:200] if r.status != 'unsat' else ''))
                 continue
             if p.outcome() != 'returns':
                 return Verdict('unknown', 'engine', time.time() - t0, 'path %s: %s %s' % (p.outcome(), p.exception, p.traceback[-700:]), sample=sample)
@@ -1162,22 +1193,28 @@ import pfhedge.nn as pnn
 from pfhedge.instruments import BrownianStock, EuropeanOption
 torch.manual_seed(2)
 bad = []
-for H in (1, 2, 3):
+for order in ("last", "first"):
+  for H in (1, 2, 3):
     und = BrownianStock(dt=0.01); d = EuropeanOption(und, maturity=0.2); d.simulate(n_paths=5)
     others = [BrownianStock(dt=0.01) for _ in range(H - 1)]
     for o in others: o.simulate(n_paths=5, time_horizon=0.2)
     seen = []
+    sl = slice(2, None) if order == "last" else slice(0, H)
     class M(torch.nn.Module):
         def forward(self, x):
-            seen.append(x.clone()); return x[..., :1].repeat(1, 1, H) * 0.5 + x[..., -H:] * 0.25 + 0.1
-    hedger = pnn.Hedger(M(), ["log_moneyness", "time_to_maturity", "prev_hedge"])
+            seen.append(x.clone()); return x[..., 2:3].repeat(1, 1, H) * 0.5 + x[..., sl] * 0.25 + 0.1 if order == "first" else x[..., :1].repeat(1, 1, H) * 0.5 + x[..., sl] * 0.25 + 0.1
+    feats = ["log_moneyness", "time_to_maturity", "prev_hedge"] if order == "last" else ["prev_hedge", "log_moneyness", "time_to_maturity"]
+    hedger = pnn.Hedger(M(), feats)
     hedger.compute_hedge(d, hedge=[und] + others)       # an earlier evaluation on the same hedger
     del seen[:]
     out = hedger.compute_hedge(d, hedge=[und] + others)
+    lm = d.log_moneyness()
     for k, x in enumerate(seen):
-        if tuple(x.shape) != (5, 1, 2 + H): bad.append((H, k, "shape", tuple(x.shape))); continue
+        if tuple(x.shape) != (5, 1, 2 + H): bad.append((order, H, k, "shape", tuple(x.shape))); continue
         want = torch.zeros(5, H) if k == 0 else out[:, :, k - 1]
-        if not torch.allclose(x[:, 0, 2:], want): bad.append((H, k, "prev_hedge != previous output"))
+        if not torch.allclose(x[:, 0, sl], want): bad.append((order, H, k, "prev_hedge != previous output"))
+        col = 0 if order == "last" else H
+        if not torch.allclose(x[:, 0, col], lm[:, k]): bad.append((order, H, k, "log_moneyness not at its declared position"))
 result = {"got": [str(b) for b in bad], "ref": []}
 '''
 
@@ -1199,6 +1236,7 @@ def c03_obligations(seed, tier='quick'):
     for H in (1, 2):
         obs.append(batched_vs_stepwise_loop_ob(H))
         obs.append(hedge_loop_ob('user', H, aspects=('prev', 'shape'), props=('C03',)))
+    obs.append(hedge_loop_ob('user', 2, aspects=('prev', 'shape'), props=('C03',), prev_first=True))
     return obs
 
 
